@@ -15,6 +15,12 @@ type streamReader struct {
 	deserializer Deserializer
 }
 
+var errInvalidEnvelope = errors.New("invalid envelope: index out of range")
+
+func validIndex(idx int32, n int) bool {
+	return idx >= 0 && int(idx) < n
+}
+
 func newStreamReader(r *Remote) *streamReader {
 	return &streamReader{
 		remote:       r,
@@ -36,6 +42,14 @@ func (r *streamReader) Receive(stream DRPCRemote_ReceiveStream) error {
 		}
 
 		for _, msg := range envelope.Messages {
+			// Never trust the indices a peer sends us.
+			if msg == nil ||
+				!validIndex(msg.TypeNameIndex, len(envelope.TypeNames)) ||
+				!validIndex(msg.TargetIndex, len(envelope.Targets)) ||
+				(len(envelope.Senders) > 0 && !validIndex(msg.SenderIndex, len(envelope.Senders))) {
+				slog.Error("streamReader received an invalid envelope")
+				return errInvalidEnvelope
+			}
 			tname := envelope.TypeNames[msg.TypeNameIndex]
 			payload, err := r.deserializer.Deserialize(msg.Data, tname)
 
